@@ -28,8 +28,8 @@ type ColType struct {
 	Max int // -1: unlimited
 }
 
-func (c *ColType) IsMap() bool    { return c.Val != nil }
-func (c *ColType) IsScalar() bool { return c.Val == nil && c.Min == 1 && c.Max == 1 }
+func (c *ColType) IsMap() bool      { return c.Val != nil }
+func (c *ColType) IsScalar() bool   { return c.Val == nil && c.Min == 1 && c.Max == 1 }
 func (c *ColType) IsOptional() bool { return c.Val == nil && c.Min == 0 && c.Max == 1 }
 
 type Column struct {
@@ -229,11 +229,11 @@ func bt(t string) *BaseType { return &BaseType{Type: t} }
 func ref(table, kind string) *BaseType {
 	return &BaseType{Type: "uuid", RefTable: table, RefType: kind}
 }
-func scalar(b *BaseType) ColType        { return ColType{Key: b, Min: 1, Max: 1} }
-func optional(b *BaseType) ColType      { return ColType{Key: b, Min: 0, Max: 1} }
+func scalar(b *BaseType) ColType              { return ColType{Key: b, Min: 1, Max: 1} }
+func optional(b *BaseType) ColType            { return ColType{Key: b, Min: 0, Max: 1} }
 func setOf(b *BaseType, min, max int) ColType { return ColType{Key: b, Min: min, Max: max} }
-func mapOf(k, v *BaseType) ColType      { return ColType{Key: k, Val: v, Min: 0, Max: -1} }
-func col(t ColType) *Column             { return &Column{Type: t} }
+func mapOf(k, v *BaseType) ColType            { return ColType{Key: k, Val: v, Min: 0, Max: -1} }
+func col(t ColType) *Column                   { return &Column{Type: t} }
 
 // KitchenSink covers the column kinds the properties quantify over: every
 // atomic type as scalar/optional/set/map, enums, an immutable column, strong
@@ -284,11 +284,11 @@ func KitchenSink(variant int) *Schema {
 		"wmap":  col(mapOf(bt("string"), ref("Item", "weak"))),
 	}}
 	s.Tables["Item"] = &Table{IsRoot: true, Indexes: [][]string{{"iname"}, {"sa", "sb"}}, Columns: map[string]*Column{
-		"iname":  col(scalar(bt("string"))),
+		"iname": col(scalar(bt("string"))),
 		// two string columns under one index, fed from a pool whose values
 		// concatenate ambiguously ("a"+"b" = "ab"+"")
-		"sa": col(scalar(bt("string"))),
-		"sb": col(scalar(bt("string"))),
+		"sa":     col(scalar(bt("string"))),
+		"sb":     col(scalar(bt("string"))),
 		"qty":    col(scalar(bt("integer"))),
 		"need":   col(setOf(ref("Child", "weak"), 1, -1)),
 		"kmap":   col(mapOf(ref("Child", "strong"), bt("string"))),
